@@ -197,7 +197,20 @@ func (g *Gen) intLit(t *Ty) *E {
 	if v > hi {
 		v = hi
 	}
-	return &E{K: "int", Ty: t, V: v}
+	e := &E{K: "int", Ty: t, V: v}
+	// other spellings of the same constant: hexadecimal and octal, also below zero
+	if g.r.Intn(8) == 0 {
+		mag, sign := v, ""
+		if v < 0 {
+			mag, sign = -v, "-"
+		}
+		if g.r.Intn(2) == 0 {
+			e.Spell = fmt.Sprintf("%s0x%x", sign, mag)
+		} else if mag > 0 {
+			e.Spell = fmt.Sprintf("%s0%o", sign, mag)
+		}
+	}
+	return e
 }
 
 var genStrings = []string{"", "a", "b", "ab", "go", "héllo", "x y", "Z", "abc", "\xff", "日本", "q"}
